@@ -1,0 +1,15 @@
+//go:build verif
+
+package fasthttpproxy
+
+import (
+	"net"
+
+	"golang.org/x/net/proxy"
+)
+
+// VerifHTTPProxyDial exposes httpProxyDial for the C05 verification harness under /verif.
+// Compiled only with -tags verif; it adds no behaviour.
+func VerifHTTPProxyDial(dialer proxy.Dialer, network, addr, proxyAddr, auth string) (net.Conn, error) {
+	return httpProxyDial(dialer, network, addr, proxyAddr, auth)
+}
